@@ -434,7 +434,7 @@ def agg_rule(agg):
             return T.substitute(a, {J: i}), T.substitute(r, {J: i}), kinds
 
         # one generic evaluation records the body's own obligations (count invariant, safety)
-        info = {"seq": seq, "report": report_terms, "lineno": node.lineno, "somes": [], "before": before, "segs": segs, "facts": []}
+        info = {"seq": seq, "report": report_terms, "lineno": node.lineno, "somes": [], "before": before, "segs": segs, "facts": [], "counts": uses_count}
         agg.loops.append(info)
         nonempty = msgs0.nonempty
         for s, seg in enumerate(segs):
@@ -557,12 +557,11 @@ def agg_task(raises):
         except PyRaise as e:
             raised = e.exc
         nN, nL = net.nN, net.nL
-        c.oblige("post", "is_valid runs its four loops (duplicates; nodes; origin entries; destination entries)",
-                 T.const(raised is not None or [len(l["segs"]) for l in agg.loops] == [2, 1, 1, 1]), assume_after=False)
-        if raised is None and len(agg.loops) != 4:
-            return
-        shape1 = [len(sg.slots) for sg in agg.loops[0]["segs"]] if agg.loops else []
-        if shape1 != [1, 2] and not (raised is not None and shape1[:1] == [1]):
+        dups = [l for l in agg.loops if l["counts"]]
+        if raised is None and len(dups) != 1:
+            raise Unsupported(f"{len(dups)} loops count occurrences; the lemma instances below expect one duplicate scan - undecided")
+        shape1 = [len(sg.slots) for sg in dups[0]["segs"]] if dups else []
+        if dups and shape1 != [1, 2] and not (raised is not None and shape1[:1] == [1]):
             # another organisation of the duplicate scan: the lemma instances below do not fit it
             raise Unsupported(f"duplicate scan is organised differently (slots per segment {shape1}); not a violation - undecided")
         if raised is not None:
@@ -582,7 +581,7 @@ def agg_task(raises):
         if raises:
             c.oblige("post", "with raises=True a normal return reports a valid network", valid, assume_after=False)
         # ---- valid  =>  none of the nine conditions is violated anywhere
-        L1, L2, L3, L4 = agg.loops
+        L1 = dups[0]
         c.assume(valid)
         i = c.fresh_index(nN, "node")
         n = node_at(i)
@@ -637,9 +636,10 @@ def agg_task(raises):
             ret = interp.call(BoundMethod(fn, net), [], {"raises": raises})
         except PyRaise:
             return  # covered by the first task
-        if not (isinstance(ret, tuple) and len(ret) == 2 and isinstance(ret[1], AbsMsgs)) or len(agg.loops) != 4:
+        if not (isinstance(ret, tuple) and len(ret) == 2 and isinstance(ret[1], AbsMsgs)):
             return
-        if [len(sg.slots) for sg in agg.loops[0]["segs"]] != [1, 2]:
+        dups = [l for l in agg.loops if l["counts"]]
+        if len(dups) != 1 or [len(sg.slots) for sg in dups[0]["segs"]] != [1, 2]:
             raise Unsupported("duplicate scan is organised differently; undecided")
         valid = T.lift(ret[0])
         c.assume(T.not_(valid))
@@ -657,13 +657,12 @@ def agg_task(raises):
 
 def check_witness(c, net, agg, loop, s, w, how, premise):
     """the iteration w of segment s of `loop` reported: a documented condition is violated there"""
-    idx = agg.loops.index(loop)
     segs = loop["segs"]
     nN = net.nN
     rep = loop["report"](s, w)
     fired = rep[1] if how == "raise" else rep[0]
     prem = T.and_(premise, inrange(w, segs[s].n), fired)
-    if idx == 0:
+    if loop["counts"]:
         # the slot's object occurs in an earlier slot: witnesses from lemma:sum-membership
         alts = []
         for k in range(len(segs[s].slots)):
@@ -683,8 +682,9 @@ def check_witness(c, net, agg, loop, s, w, how, premise):
         return
     n = node_at(w)
     conds = node_conditions(n)
-    which = {1: (2, 3, 4, 5), 2: (6, 7), 3: (8, 9)}[idx]
-    c.oblige("post", f"a {how} in loop {idx + 1} => one of the conditions {which} is violated at that node", T.implies(prem, T.or_(*[conds[k] for k in which])), assume_after=False)
+    if any(sg.n is not nN or len(sg.slots) != 1 for sg in segs):
+        raise Unsupported("a loop that is neither the duplicate scan nor a loop over nodes / attachments - undecided")
+    c.oblige("post", f"a {how} in the loop at line {loop['lineno']} => one of the conditions (2)-(9) is violated at that node", T.implies(prem, T.or_(*conds.values())), assume_after=False)
 
 
 def all_tasks():
